@@ -12,6 +12,9 @@ BY_FAMILY = {
     "hash": ["#", "#!", "##", "# ", "=begin", "=end", "\"\"\"", "'''", "<<EOF", "EOF"],
     "xml": ["<!--", "-->", "<!--->", "<!---->", "--", "--!>", "<![CDATA[", "]]>", "<?xml", "?>", "<a>", "</a>", "<a b=\"", "&lt;"],
     "md": ["[//]:", "[//]: #", "[//]: # (", "[//]: # \"", "[//]: # '", "[//]: #?>", ")", "```", "~~~", "    ", "> ", "- ", "1. ",
+           # link definitions whose *destination* holds a lone delimiter character, and titles closed the wrong way round
+           "[//]: a'b\n", "[//]: a\"b\n", "[//]: (x\n", "[//]: x)y(z\n", "[//]: http://e.com/it's\n", "[//]: # )(\n", "[//]: <a'b> \n",
+           "\n[//]: '\n", "\n[//]: \"\n", "\n[//]: #'x\n",
            "[x]: y", "[//]: <> (", "<!--", "-->", "<div>", "</div>", "# ", "---", "***", "|a|b|"],
     "sql": ["--", "/*", "*/", "-- ", "$$", "';", "SELECT", "E'"],
     "php": ["<?php", "?>", "<?=", "//", "#", "/*", "*/", "<<<EOT", "EOT;", "#["],
